@@ -4,41 +4,60 @@ import numpy as np
 from vlib import caseio, gen
 
 ID = "C03"
-COQ_TARGETS = ["C03_Extract.vo", "C03_Proofs.vo", "C03_Circular.vo", "C03_Real.vo", "C03_Transport.vo"]
+COQ_TARGETS = ["C03_Extract.vo", "C03_Proofs.vo", "C03_Circular.vo", "C03_Real.vo", "C03_Transport.vo",
+               "C03_RFun.vo", "C03_Euler.vo", "C03_Spread.vo", "C03_QuatAlg.vo", "C03_Quat.vo", "C03_QuatEx.vo", "C03_QuatSpread.vo"]
+EXTRA_PROPERTIES = ["C03_Real"]   # Properties_C03_Real.v: whole-layout theorems over Coq's reals (Euler rows / quaternion blocks + noise block)
 COQ_PREFIXES = ["C03", "C18", "C19", "C02"]
 EXTRACTED = "C03_model"
 DRIVER = "drv_C03.ml"
 HARNESS = "h_C03.cpp"
 VARIANTS = {"quick": ["O1", "assert"], "thorough": ["O1", "assert", "asan"]}
-# the linear-algebra theorems are closed under the global context; the three World-B theorems
-# (C03_circular_row, C03_quaternion_block, C03_scalar_helpers_are_C19_C18) are over Coq's reals
+# the linear-algebra theorems (MathComp) are closed under the global context; the World-B theorems (C03_circular_row,
+# C03_quaternion_block, C03_scalar_helpers_are_C19_C18 and all of Properties_C03_Real.v) are over Coq's reals
 AXIOMS_ALLOWED = ["ClassicalDedekindReals.sig_forall_dec", "ClassicalDedekindReals.sig_not_dec",
                   "FunctionalExtensionality.functional_extensionality_dep", "Classical_Prop.classic"]
 REQUIRED_THEOREMS = ["C03_weights_sum", "C03_weights_shape", "C03_sigma_moments_linear", "C03_affine_exact", "C03_affine_exact_models",
                      "C03_affine_exact_augmented", "C03_affine_exact_additive", "C03_first_sigma_point_partial",
                      "C03_failure_propagates", "C03_success_propagates", "C03_circular_row", "C03_quaternion_block",
-                     "C03_scalar_helpers_are_C19_C18", "C03_transport_weighted_sums", "C03_transport_affine_map"]
+                     "C03_scalar_helpers_are_C19_C18", "C03_transport_weighted_sums", "C03_transport_affine_map",
+                     "C03_euler_sigma_moments", "C03_euler_affine_exact", "C03_euler_small_spread_from_covariance",
+                     "C03_euler_affine_exact_small_cov", "C03_euler_image_meaning",
+                     "C03_quat_affine_exact", "C03_quat_image_meaning", "C03_symmetric_mean_any_central_weight",
+                     "C03_quat_spread_from_covariance"]
 RULE = ("cases drawn from one seeded stream: kinds weights (n 1..12) and ut with layouts linear / Euler-circular (no-wrap and wrap) / "
         "quaternion, each with or without an appended noise block (augmentWithNoise, 1..3 rows; also applied a second time to the already augmented mixture), components 1..3, dof <= 11, "
         "covariances Q diag(s) Q^T PSD with distinct spectrum incl. rank-deficient and zero, alpha in [0.1,2], beta in [0,3], kappa in [0,3], "
         "all five unscented_transform overloads, affine maps (rectangular, rank-deficient, zero) and quadratic maps x -> A x + b + g o (Gx) o (Gx) (compared with the model only), non-zero means on the noise rows, failing evaluations; "
+        "magnitudes: units 2^-20..2^20 of the linear / noise input coordinates and of the linear outputs (covariances over 24 orders), per-coordinate factors 2^-5..2^5 (2^+-7, 2^+-3 when circular rows share the covariance), tolerances relative to the unscaled case times 1 + 1e-4 (max scale / min scale)^2; "
+        "intrude = 1 (30 %): every function / model callback first runs a complete transform of the same overload on a twin belief through another function; "
         "non-trivial = components >= 2 or noise block or non-linear layout or singular covariance or failing evaluation; "
         "distinct by (layout class, lin, circ, aug, comps, overload, rank deficit, fail)")
-TRUSTED_BASE = ["Coq 8.16.1 kernel (coqc); linear-algebra theorems: no axioms (closed under the global context); C03_circular_row, C03_quaternion_block, C03_scalar_helpers_are_C19_C18: the four standard axioms of Coq's Reals",
+TRUSTED_BASE = ["Coq 8.16.1 kernel (coqc); linear-algebra theorems: no axioms (closed under the global context); C03_circular_row, C03_quaternion_block, C03_scalar_helpers_are_C19_C18 and Properties_C03_Real.v (whole-layout Euler / quaternion theorems at the real matrix instance RF of C03_RFun.v): the four standard axioms of Coq's Reals",
                 "MathComp 1.15 matrix theory",
                 "extraction (ExtrOcamlBasic only) and ocaml/float_ops.ml, ocaml/drv_C03.ml (incl. its Jacobi eigen-iteration used as square-root / eigenvector oracle), ocaml/caseio.ml",
                 "ListOps list instance of MatOps (structural operations, unproved)",
-                "cpp/h_C03.cpp harness and its affine models; comparison tolerances 1e-9 * (1 + max|weight|) * magnitude",
+                "cpp/h_C03.cpp harness and its affine models; comparison tolerances 1e-9 * max|weight| * magnitude * (1 + 1e-4 r^2), r the grading of the input units (CALIBRATION)",
+                "the matrix instance RF (functions nat -> nat -> R) at which the whole-layout theorems are stated is another instance of the same Gallina model than the list / float instance that is run",
                 "correspondence is sampled: agreement is established on the generated cases only",
                 "IEEE rounding is not modelled (theorems over an exact real field)"]
 ASSUMPTIONS = ["square-root oracle: P symmetric PSD => A A^T = P (Eigen jacobiSvd U sqrt(S); checked on every case on both sides)",
                "sqrt oracle: 0 <= c => sqrt c * sqrt c = c (premise of the moment theorems)",
                "eigenvector oracle for the quaternion mean (Eigen EigenSolver): unit eigenvector of the largest eigenvalue (residual checked on the model side)",
                "per-instance oracle premises of the theorems: sqrt(c)^2 = c and sq P (sq P)^T = P for the covariances of the step (no universally quantified contract)",
-               "circular / quaternion clauses: spreads within a half turn and positive weighted resultant (premises of C03_circular_row; generator enforces); whole-layout moment theorems for these layouts remain partial"]
+               "Euler layouts (C03_euler_affine_exact_small_cov): c P_jj < pi^2 on circular inputs, c (A P A^T)_ii < pi^2 and (A P A^T)_ii < 2 on circular outputs; the half-turn bounds and the positive resultant are derived from these",
+               "quaternion layouts (C03_quat_affine_exact): unit mean quaternions; every rotation-vector block of a sigma offset zero or outside the 1e-4 cut-off zone and within a half turn; positive weighted resultant per block; eigen-solver contract (unit eigenvector of the largest eigenvalue) per block — the generator enforces the spreads, the near-cut-off cases are excluded and counted"]
 
-COUNTS = {"quick": 320, "thorough": 9000}
+COUNTS = {"quick": 1600, "thorough": 12000}
 TWO_PI = 2 * math.pi
+
+
+# measured worst errors (tools: /tmp calibration over 16000 thorough cases, seeds 1-3 of the widened stream, both sides):
+#   ungraded cases (r = 1):  error / (1e-9 wmag mag) <= 4.0e-6 on every compared quantity (sigma covariance, mean, covariance,
+#                            cross-covariance): the 1e-9 tolerance has a margin of 2.5e5
+#   graded cases (r up to 2^10): error / (1e-9 wmag mag) <= 0.08 at r = 2^10, i.e. 7.6e-17 r^2: the floor 1e-13 r^2 of
+#                            grade_factor has a margin of 1.3e3
+#   quaternion cases with sigma offsets under a cut-off: error / (exact cut-off bound + tolerance) <= 0.49
+CALIBRATION = {"flat_worst_over_tol": 4.0e-6, "graded_worst_over_floor": 7.6e-4, "cutoff_worst_over_bound": 0.49}
 
 
 # ------------------------------------------------------------------ layout helpers
@@ -257,9 +276,42 @@ def gen_ut(rng, k, tier):
     noise_means = gen.matrix(rng, q, comps, 2.0) if (q > 0 and rng.random() < 0.6) else None
     N = psd_distinct(rng, pc, pc, 10 ** rng.uniform(-2, 0))
     wmag = max(abs(1 - dc / c) + abs(1 - alpha * alpha + beta), 1 / (2 * c), 1.0)
+    # ---- magnitudes. Units of the linear / noise input coordinates (Ds storage rows, Dt tangent rows) and of the linear
+    # output coordinates (Es, Et); angles and quaternions have no unit.  x' = Ds x, y' = Es y: m' = Ds m, P' = Dt P Dt,
+    # A' = Es A Ds^-1, b' = Es b, J' = Et J Dt^-1, N' = Et N Et, G' = G Ds^-1, g' = Es g.  All factors are powers of two, so
+    # the scaled case is an exact image of the unscaled one and every expected value scales exactly; only the square
+    # root (an SVD, backward stable in norm: error ~ eps |P'|) sees the grading r = max Dt / min Dt, see tol_of.
+    # "unit": one unit for all input coordinates and one for all outputs (2^-20 .. 2^20, i.e. covariances over 24 orders;
+    # +-7 when circular rows, which stay at scale 1, share the covariance); "coord": additionally a factor per coordinate.
+    smode = rng.choice(["none", "unit", "unit", "coord", "coord"])
+    Ds, Dt, Es, Et = np.ones(d), np.ones(dc), np.ones(p_), np.ones(pc)
+    if smode != "none":
+        lim_u, lim_c = (20, 5) if cls == "linear" else (7, 3)
+        ku, ke = rng.randint(-lim_u, lim_u), rng.randint(-lim_u, lim_u)
+        ex = (lambda base: base + rng.randint(-lim_c, lim_c)) if smode == "coord" else (lambda base: base)
+        for i in range(lin):
+            Ds[i] = Dt[i] = 2.0 ** ex(ku)
+        for i in range(q):
+            Ds[d - q + i] = Dt[dc - q + i] = 2.0 ** ex(ku)
+        for i in range(olay[0]):
+            Es[i] = Et[i] = 2.0 ** ex(ke)
+        means = [Ds[:d0, None] * m for m in means]
+        covs = [Dt[:dc0, None] * P * Dt[None, :dc0] for P in covs]
+        if q1:
+            Qaug = Dt[dc0:dc0 + q1, None] * Qaug * Dt[None, dc0:dc0 + q1]
+        if q2:
+            Qaug2 = Dt[dc0 + q1:, None] * Qaug2 * Dt[None, dc0 + q1:]
+        if noise_means is not None:
+            noise_means = Ds[d - q:, None] * noise_means
+        A = Es[:, None] * A / Ds[None, :]; b = Es[:, None] * b
+        J = Et[:, None] * J / Dt[None, :]; N = Et[:, None] * N * Et[None, :]
+        if quad:
+            G = G / Ds[None, :]; gq = Es[:, None] * gq
+    lg_r = float(np.log2(np.max(Dt) / np.min(Dt))) if dc else 0.0
+    intrude = 1 if rng.random() < 0.3 else 0     # callback re-entrancy: a twin transform runs inside every callback
     meta = {"cls": cls, "lin": lin, "circ": circ, "quat": quat, "aug": q, "aug2": q2, "quad": quad, "nzm": int(noise_means is not None), "comps": comps, "overload": overload, "fail": fail,
             "alpha": "%.4g" % alpha, "beta": "%.4g" % beta, "kappa": "%.4g" % kappa, "kindA": kindA,
-            "deficit": max(deficits), "wmag": "%.4g" % wmag, "c": "%.6g" % c}
+            "deficit": max(deficits), "wmag": "%.4g" % wmag, "c": "%.6g" % c, "scal": smode, "lg_r": "%g" % lg_r, "intrude": intrude}
     cs = caseio.Case(k, "ut", meta)
     cs.int("lin", lin).int("circ", circ).int("quat", quat).int("out_lin", olay[0]).int("out_circ", olay[1]).int("out_quat", olay[2])
     cs.int("aug", q1).int("aug2", q2).int("overload", overload).int("fail", fail)
@@ -270,6 +322,8 @@ def gen_ut(rng, k, tier):
         cs.mat_shape("G", p_, d, G).mat_shape("g", p_, 1, gq)
     if noise_means is not None:
         cs.mat_shape("noise_means", q, comps, noise_means)
+    if smode != "none":
+        cs.mat_shape("Ds", d, 1, Ds).mat_shape("Dt", dc, 1, Dt).mat_shape("Es", p_, 1, Es).mat_shape("Et", pc, 1, Et)
     return cs
 
 
@@ -294,6 +348,85 @@ def nontrivial(c):
     if int(m["comps"]) >= 2 or int(m["aug"]) > 0 or m["cls"] != "linear" or int(m["deficit"]) > 0 or int(m["fail"]):
         return (m["cls"], m["lin"], m["circ"], m["aug"], m.get("aug2", "0"), m.get("quad", "0"), m.get("nzm", "0"), m["comps"], m["overload"], m["deficit"], m["fail"])
     return None
+
+
+# ------------------------------------------------------------------ units
+class View:
+    """a case seen in other units: the listed matrices replaced, everything else forwarded"""
+
+    def __init__(self, c, over):
+        self.c, self.over, self.id, self.kind, self.meta = c, over, c.id, c.kind, c.meta
+
+    def get(self, n):
+        return self.over[n] if n in self.over else self.c.get(n)
+
+    def has(self, n):
+        return n in self.over or self.c.has(n)
+
+
+def scales(c):
+    if c.kind != "ut" or not c.has("Ds"):
+        return None
+    return tuple(c.get(n).reshape(-1) for n in ("Ds", "Dt", "Es", "Et"))
+
+
+def unscaled_case(c):
+    """the case in the units it was generated in (all factors are powers of two: exact)"""
+    sc = scales(c)
+    if sc is None:
+        return c
+    Ds, Dt, Es, Et = sc
+    lay0, lay, olay = layouts(c)
+    d0, dc0, _ = dims(*lay0); d, dc, dx = dims(*lay)
+    q1 = c.get("aug")
+    comps = c.get("means").shape[1]
+    o = {"means": c.get("means") / Ds[:d0, None],
+         "covs": c.get("covs") / np.tile(Dt[:dc0], comps)[None, :] / Dt[:dc0, None] if dc0 else c.get("covs"),
+         "A": c.get("A") * Ds[None, :] / Es[:, None], "b": c.get("b") / Es[:, None],
+         "J": c.get("J") * Dt[None, :] / Et[:, None], "N": c.get("N") / Et[:, None] / Et[None, :]}
+    if q1:
+        o["Qaug"] = c.get("Qaug") / Dt[dc0:dc0 + q1, None] / Dt[None, dc0:dc0 + q1]
+    if c.has("aug2") and c.get("aug2"):
+        o["Qaug2"] = c.get("Qaug2") / Dt[dc0 + q1:, None] / Dt[None, dc0 + q1:]
+    if c.has("noise_means"):
+        o["noise_means"] = c.get("noise_means") / Ds[d - lay[3]:, None]
+    if c.has("G"):
+        o["G"] = c.get("G") * Ds[None, :]; o["g"] = c.get("g") / Es[:, None]
+    return View(c, o)
+
+
+def unscaled_rec(c, rec):
+    """an output record of the (scaled) case c expressed in the units the case was generated in"""
+    sc = scales(c)
+    if sc is None or rec is None:
+        return rec
+    Ds, Dt, Es, Et = sc
+    dx = dims(*layouts(c)[1])[2]
+    r = caseio.Record(rec.id, rec.kind)
+    r.meta = rec.meta
+    r.vals = dict(rec.vals)
+    def put(name, f):
+        if rec.tag(name) == "mat":
+            try:
+                r.vals[name] = ("mat", f(rec.get(name)))
+            except ValueError:          # a shape the scaling does not fit: left as it is, the shape checks report it
+                pass
+    put("sp", lambda a: a / Ds[:, None])
+    for i in range(int(c.meta["comps"])):
+        put("mean%d" % i, lambda a: a / Es[:, None])
+        put("cov%d" % i, lambda a: a / Et[:, None] / Et[None, :])
+        put("cross%d" % i, lambda a: a / Dt[:dx, None] / Et[None, :])
+    return r
+
+
+def grade_factor(c):
+    """The square root of P' = Dt P Dt is computed by an SVD (Eigen's two-sided Jacobi on the implementation side, a
+    cyclic Jacobi in the driver): backward stable in norm, |A A^T - P'| <~ 16 eps dc |P'|_max.  Seen in the units of
+    the case (divide entry (i, j) by Dt_i Dt_j) this is amplified by at most r^2, r = max Dt / min Dt; everything after
+    the square root scales exactly.  Tolerances of 1e-9 (relative to the unscaled magnitudes) therefore carry the
+    factor 1 + 1e-4 r^2, i.e. a floor of 1e-13 r^2 (calibrated: see CALIBRATION)."""
+    r = 2.0 ** float(c.meta.get("lg_r", 0.0))
+    return 1.0 + 1e-4 * r * r
 
 
 # ------------------------------------------------------------------ shared evaluation
@@ -340,7 +473,7 @@ def sigma_moments(c, rec):
 
 
 def tol_of(c, mag=1.0):
-    return 1e-9 * float(c.meta.get("wmag", 1.0)) * max(1.0, mag)
+    return 1e-9 * float(c.meta.get("wmag", 1.0)) * max(1.0, mag) * grade_factor(c)
 
 
 def compare(c, impl, model):
@@ -348,6 +481,7 @@ def compare(c, impl, model):
         return caseio.compare_fields(impl, model, ["wm", "wc", "c"], atol=1e-13, rtol=1e-13, scale=1.0)
     d = caseio.compare_fields(impl, model, ["wm", "wc", "c"], atol=1e-13, rtol=1e-13, scale=1.0)
     d += caseio.compare_fields(impl, model, ["dof", "valid"], 0, 0)
+    impl, model, c = unscaled_rec(c, impl), unscaled_rec(c, model), unscaled_case(c)
     _, lay, olay = layouts(c)
     if impl.get("sp").shape != model.get("sp").shape:
         return d + ["sp: shape impl=%s model=%s" % (impl.get("sp").shape, model.get("sp").shape)]
@@ -406,9 +540,13 @@ def quat_cutoff(c):
     jn = max(1.0, float(np.linalg.norm(J, 2)) if J.size else 1.0)
     t1, t2 = 1e-4, 2.0 * math.asin(1e-4)
     tol, near, rmax = 0.0, False, 0.0
-    for P in augmented(c)[1]:
+    orig = getattr(c, "c", c)                 # the case in the units the implementation sees: ITS factor decides
+    sc = scales(orig)
+    for P in augmented(orig)[1]:
         lam, V = np.linalg.eigh((P + P.T) / 2)
         cols = V * np.sqrt(cc * np.maximum(lam, 0.0))
+        if sc is not None:
+            cols = cols / sc[1][:, None]      # back to the units of the comparison (quaternion rows have scale 1)
         for k in range(cols.shape[1]):
             dk = float(np.linalg.norm(cols[:, k]))
             for j in range(circ):
@@ -460,6 +598,9 @@ def oracle(c, impl, model):
         v.append((sig + ":central-covariance-weight", "wc0 = %r" % wc[0]))
     if c.kind == "weights":
         return v
+    if int(c.meta.get("intrude", 0)) and impl.get("intruder_calls", 0) < 1:
+        v.append((sig + ":harness:intruder-never-ran", "intrude=1 but no callback reached the hook"))
+    impl, model, c = unscaled_rec(c, impl), unscaled_rec(c, model), unscaled_case(c)
     lay0, lay, olay = layouts(c)
     d, dc, dx = dims(*lay); pdim, pc, _ = dims(*olay)
     comps = int(c.meta["comps"]); fail = int(c.meta["fail"]); overload = int(c.meta["overload"])
@@ -487,7 +628,7 @@ def oracle(c, impl, model):
         if not caseio.close(Dp, -Dn, 1e-9 * max(1.0, float(np.max(np.abs(Dp), initial=0.0))) + 2.0 * quat_rmax(c) + (0 if qtol < math.inf else math.inf), 0):
             v.append((sig + ":sigma-points-not-symmetric", "component %d: positive and negative branches differ in magnitude by %.3g" % (i, caseio.maxdiff(Dp, -Dn))))
         A = Dp / math.sqrt(cc)
-        if not caseio.close(A @ A.T, P, 1e-9 * mag + 2.0 * qtol, 0):
+        if not caseio.close(A @ A.T, P, 1e-9 * mag * grade_factor(c) + 2.0 * qtol, 0):
             v.append((sig + ":sqrt-contract", "component %d: |A A^T - P| = %.3g" % (i, caseio.maxdiff(A @ A.T, P))))
     # ---- failure is reported as failure
     if fail:
@@ -579,12 +720,20 @@ def model_contracts(model):
 
 def histogram(cases):
     h = {}
-    for key in ("cls", "overload", "aug", "aug2", "quad", "nzm", "comps", "fail", "deficit", "kindA"):
+    for key in ("cls", "overload", "aug", "aug2", "quad", "nzm", "comps", "fail", "deficit", "kindA", "scal", "lg_r", "intrude"):
         hk = {}
         for c in cases:
             if key in c.meta:
                 hk[str(c.meta[key])] = hk.get(str(c.meta[key]), 0) + 1
         h[key] = hk
+    # every layout class with a noise block carrying non-zero noise means, and with each kind of scaling
+    h["cls_x_nonzero_noise_mean"] = {}
+    h["cls_x_scal"] = {}
+    for c in cases:
+        if c.kind == "ut":
+            if int(c.meta.get("aug", 0)) > 0 and int(c.meta.get("nzm", 0)):
+                k = str(c.meta["cls"]); h["cls_x_nonzero_noise_mean"][k] = h["cls_x_nonzero_noise_mean"].get(k, 0) + 1
+            k = "%s:%s" % (c.meta["cls"], c.meta.get("scal", "none")); h["cls_x_scal"][k] = h["cls_x_scal"].get(k, 0) + 1
     h["near_boundary_skipped"] = len(NEAR_BOUNDARY)
     return h
 
@@ -593,7 +742,10 @@ LEVEL_TEXT = ("Proof: for the linear layout with or without an appended noise bl
               "SVD square-root oracle, weighted mean / covariance / cross-covariance, all overloads) is proved, for every real field, dimension, "
               "mixture size, PSD covariance incl. singular and every (alpha, beta, kappa) with n + lambda > 0, to have weights summing to one, sigma "
               "points reproducing mean and covariance with the first one equal to the mean, and to map affine functions to mean A m + b, covariance "
-              "A P A^T (+Q), cross-covariance P A^T (augmented: A P A^T + B Q B^T, P A^T); a failed evaluation yields no belief. Circular and "
-              "quaternion layouts are modelled and covered by the correspondence check and the oracle; their theorems are partial.")
+              "A P A^T (+Q), cross-covariance P A^T (augmented: A P A^T + B Q B^T, P A^T); a failed evaluation yields no belief. For layouts with "
+              "Euler-angle rows or quaternion blocks (with or without noise rows) the same statements are proved over Coq's reals for whole mixtures and "
+              "all overloads: moments preserved in the tangent chart, mean modulo 2 pi / up to the sign of the quaternion, covariance J P J^T, "
+              "cross-covariance P J^T, under explicit smallness premises (derived from covariance bounds for Euler rows; stated on the factor, with the "
+              "cut-off zone excluded and the eigen-solver contract as a premise, for quaternion blocks).")
 LEVEL_NOTE = ("Trusted: Coq kernel, MathComp, extraction + float driver (with its Jacobi oracle), list instance of the matrix interface, harness and tolerances; "
               "rounding is not modelled; the tie to the code is sampled. Oracle contracts (A A^T = P, sqrt c ^2 = c) are premises, checked at run time.")
